@@ -189,10 +189,60 @@ def check_combined_userchol(ctx, case):
     return probs
 
 
+def check_tls_slow(ctx, case):
+    """total least squares from starts far from the minimum (y = a0 exp(-a1 x) + a2 with errors on x and y): the
+    orthogonal-distance search may stop at its iteration limit - then the fit is refused; whatever is returned is the minimum"""
+    probs = []
+    nprng = np.random.default_rng(case['seed'])
+    p_true = [2.0, 0.3, 0.5]
+    xs = np.arange(1, 11, dtype=float)
+    dx = np.full(len(xs), 0.02 * xs.mean())
+
+    def nf(p, x):
+        return p[0] * np.exp(-p[1] * x) + p[2]
+
+    def af(a, x):
+        return a[0] * anp.exp(-a[1] * x) + a[2]
+    dy = 0.02 * nf(p_true, xs)
+    xv = xs + nprng.normal(0, 1, len(xs)) * dx
+    yv = nf(p_true, xs) + nprng.normal(0, 1, len(xs)) * dy
+    with warnings.catch_warnings(), quiet():
+        warnings.simplefilter('ignore')
+        ox = [pe.pseudo_Obs(xv[i], dx[i], 'x%d' % i) for i in range(len(xs))]
+        oy = [pe.pseudo_Obs(yv[i], dy[i], 'y%d' % i) for i in range(len(xs))]
+
+        def chi2(fit):
+            # the documented orthogonal-distance chi-square, profiled over the x shifts by a dense re-minimisation
+            from scipy.optimize import minimize
+            p = np.array([q.value for q in fit.fit_parameters])
+            r = minimize(lambda xh: np.sum(((yv - nf(p, xh)) / dy) ** 2) + np.sum(((xv - xh) / dx) ** 2), xv, method='BFGS')
+            return float(r.fun)
+        try:
+            ref = pe.total_least_squares(ox, oy, af, silent=True, initial_guess=[2.0, 0.3, 0.5])
+        except Exception as e:
+            return [('violation', 'tls-exception', 'control fit from the true parameters: %r' % (e,))]
+        c_ref = chi2(ref)
+        for g in ([0.1, 1.0, 1.0], [0.05, 2.0, 1.0], [0.1, 0.5, 3.0], [0.3, 1.5, 0.0], [0.1, 1.0, 0.1]):
+            try:
+                fit = pe.total_least_squares(ox, oy, af, silent=True, initial_guess=g)
+            except Exception:
+                ctx.count('tls-slow:refused')
+                continue
+            ctx.count('tls-slow:returned')
+            c = chi2(fit)
+            if not c <= c_ref * (1 + 1e-4) + 1e-6:
+                probs.append(('violation', 'tls-not-stationary', 'start %r: returned %r with chi-square %r, the minimum is %r' % (
+                    g, [float(q.value) for q in fit.fit_parameters], c, c_ref)))
+                break
+    return probs
+
+
 def check_case(ctx, case):
     probs = []
     if case.get('kind') == 'combined_userchol':
         return check_combined_userchol(ctx, case)
+    if case.get('kind') == 'tls_slow':
+        return check_tls_slow(ctx, case)
     with warnings.catch_warnings(), quiet():
         warnings.simplefilter('ignore')
         x, ys, af, nf, truth = make(case)
@@ -363,13 +413,46 @@ def check_case(ctx, case):
                     xs[0] = pe.cov_Obs(1, sx ** 2, 'XI')
                 [o.gamma_method() for o in xs]
                 xflat = list(xs)
+            far_ = bool(case.get('far_guess')) and sx > 1e-7 and case.get('xdim', 1) == 1
             try:
-                rt = pe.total_least_squares(xs, ys, af, silent=True, initial_guess=[t * 1.05 for t in truth])
+                # 'far_guess': a start so far from the minimum that the orthogonal-distance search may run into its iteration
+                # limit - then the fit is refused; whatever is RETURNED has to be a stationary point
+                g0_ = [1e-3, 5.0, 1.0, 1.0][:len(truth)] if far_ else [t * 1.05 for t in truth]
+                rt = pe.total_least_squares(xs, ys, af, silent=True, initial_guess=g0_)
             except Exception as e:
-                probs.append(('violation', 'tls-exception', '%s: %s' % (type(e).__name__, str(e)[:200])))
+                if not far_:
+                    probs.append(('violation', 'tls-exception', '%s: %s' % (type(e).__name__, str(e)[:200])))
+                    return probs
+            if far_:
+                # further starts: every one is either refused or ends in a stationary point
+                xv_f = np.array([o.value for o in xs])
+                dx_f = np.array([o.dvalue for o in xs])
+
+                def chi2_f(z, npar=len(truth)):
+                    p, xh = z[:npar], z[npar:]
+                    return np.sum(((yv - nf(p, xh)) / dy) ** 2) + np.sum(((xv_f - xh) / dx_f) ** 2)
+                for g_ in ([1e-3, 5.0, 1.0, 1.0], [0.1, 1.0, 1.0, 1.0], [0.01, 0.01, 0.01, 0.01], [1e3, 1e-3, 1.0, 1.0], [5.0, 5.0, 5.0, 5.0], [0.1, 3.0, 0.1, 1.0]):
+                    try:
+                        rf = pe.total_least_squares(xs, ys, af, silent=True, initial_guess=g_[:len(truth)])
+                    except Exception:
+                        ctx.count('tls-far-guess:refused')
+                        continue
+                    ctx.count('tls-far-guess:returned')
+                    [p.gamma_method() for p in rf.fit_parameters]
+                    z0f = np.concatenate([[p.value for p in rf.fit_parameters], xv_f])
+                    try:
+                        zsf = newton_min(chi2_f, z0f, iters=80)
+                        devf = np.abs(zsf[:len(truth)] - z0f[:len(truth)]) / np.array([max(p.dvalue, 1e-12) for p in rf.fit_parameters])
+                        bad_ = not np.all(np.isfinite(devf)) or np.max(devf) > 1e-3
+                    except Exception:
+                        bad_ = True
+                    if bad_ and chi2_f(z0f) > 10.0 * max(1.0, chi2_f(np.concatenate([truth, xv_f]))):
+                        probs.append(('violation', 'tls-not-stationary', 'start %r: returned %r with chi-square %r (at the true parameters: %r)' % (
+                            g_[:len(truth)], z0f[:len(truth)], float(chi2_f(z0f)), float(chi2_f(np.concatenate([truth, xv_f]))))))
+                        return probs
                 return probs
             [p.gamma_method() for p in rt.fit_parameters]
-            if sx > 1e-7:
+            if sx > 1e-7 and not far_:
                 # sensitivities: implicit-function theorem applied to the stationarity of the documented chi-square
                 # in (p, xhat), with respect to the y AND the x data, at the stationary point
                 import autograd
@@ -436,6 +519,8 @@ def gen_case(ctx):
     if rng.random() < 0.12:
         return {'kind': 'combined_userchol', 'seed': rng.getrandbits(28), 'na': rng.randint(4, 7), 'nb': rng.randint(3, 6), 'listed': rng.choice([['a', 'b'], ['b', 'a'], ['b', 'a']]),
                 'dict_order': rng.random() < 0.5, 'model': 'exp', 'correlated': True, 'num_grad': False, 'prior': False}
+    if rng.random() < 0.07:
+        return {'kind': 'tls_slow', 'seed': rng.getrandbits(28), 'model': 'expc', 'correlated': False, 'num_grad': False, 'prior': False}
     model = rng.choice(['exp', 'cosh', 'rat', 'exp2', 'exp', 'cosh'])
     kind = rng.choice(['ls', 'ls', 'tls'])
     case = {'seed': rng.getrandbits(28), 'model': model, 'kind': kind, 'npts': rng.randint(7, 11), 'nens': rng.choice([1, 3, 12]),
@@ -454,6 +539,8 @@ def gen_case(ctx):
         case['yscale2'] = rng.choice([-10, -12, 7])
     if kind == 'tls' and rng.random() < 0.35:
         case['xdim'] = 2
+    elif kind == 'tls' and case['sx'] > 1e-7 and not case['xint'] and rng.random() < 0.7:
+        case['far_guess'] = True
     if case['correlated'] and rng.random() < 0.6:
         case['prior'] = True          # priors inside the correlated chi-square, on any parameter index
     if case['correlated'] and case['nens'] != 1:
